@@ -81,6 +81,8 @@ impl Partition {
             return Ok(Vec::new());
         }
 
+        // A poll that reaches below the earliest retained offset starts from the earliest message.
+        let start_offset = std::cmp::max(start_offset, self.segments[0].start_offset);
         let end_offset = self.get_end_offset(start_offset, count);
         if let Some(cached) = self.try_get_messages_from_cache(start_offset, end_offset) {
             return Ok(cached);
